@@ -21,6 +21,7 @@ import (
 	"github.com/echovault/sugardb/internal"
 	"github.com/echovault/sugardb/internal/clock"
 	"github.com/echovault/sugardb/internal/constants"
+	"github.com/echovault/sugardb/verifhook"
 	"io"
 	"net"
 	"strings"
@@ -197,12 +198,16 @@ func (server *SugarDB) handleCommand(ctx context.Context, message []byte, conn *
 		}
 
 		if internal.IsWriteCommand(command, subCommand) && !replay {
+			verifhook.Point("cmd.executed")
 			// Log the command under the database it was executed in (for embedded calls there is no
 			// TCP connection to look the database up from).
 			server.aofEngine.LogCommand(ctx.Value("Database").(int), message)
 		}
 
 		server.stateMutationInProgress.Store(false)
+		if internal.IsWriteCommand(command, subCommand) && !replay {
+			verifhook.Point("cmd.logged")
+		}
 
 		return res, err
 	}
